@@ -52,6 +52,33 @@ def gs(rows):
     return ';'.join(core.rats(r) for r in rows) if rows else '-'
 
 
+def model_filter(ctx, pts, knees, link, t, mode):
+    """model output of filter_clusters for this configuration, or None when only the relational spec applies (ties / nan)"""
+    import kneeliverse.knee_ranking as kr
+    import kneeliverse.convex_hull as ch
+    knees = [int(k) for k in knees]
+    labels = [int(v) for v in np.asarray(link_fn(link)(pts[np.array(knees, dtype=int)], t)).tolist()]
+    G = groups_of(labels, knees)
+    d = ctx.get_driver()
+    if mode in ('left', 'linear', 'right'):
+        rows = []
+        for g in G:
+            sc = [float(v) for v in kr.smooth_ranking(pts, np.array(g, dtype=int), getattr(kr.ClusterRanking, mode))] if len(g) > 1 else [0.0] * len(g)
+            if any(not math.isfinite(v) for v in sc) or (len(g) > 1 and len(set(sc)) < len(sc)):
+                return None
+            rows.append(sc)
+        return core.parse_nats(d.call('cluster_filter', ['rank', core.nats(labels), core.nats(knees), gs(rows)])[0])
+    hull = [int(v) for v in np.asarray(ch.graham_scan_lower(pts)).tolist()]
+    rows = []
+    for g in G:
+        hw = [h for h in hull if g[0] <= h <= g[-1]]
+        r = hull_err(pts, g, hw) if len(g) > 1 and len(hw) > 1 else [0.0] * len(g)
+        if len(g) > 1 and len(hw) > 1 and len(set(r)) < len(r):
+            return None
+        rows.append(r)
+    return core.parse_nats(d.call('cluster_filter_hull', [core.nats(labels), core.nats(knees), core.nats(hull), gs(rows)])[0])
+
+
 @core.safe_case
 def one(ctx, pts, knees, link, t, mode, family):
     import kneeliverse.postprocessing as pp
